@@ -77,7 +77,7 @@ class World:
         evs = []
         for e in cfg["events"]:
             if e["kind"] == "q":
-                evs.append(EventNBBO(T(self.base, e["t"]), cs[e["c"]], float(e["bid"]), float(e["ask"])))
+                evs.append(EventNBBO(T(self.base, e["t"]), self.chain if e["c"] == "CH" else cs[e["c"]], float(e["bid"]), float(e["ask"])))
             else:
                 evs.append(EventContractDiscontinued(T(self.base, e["t"]), cs[e["c"]]))
         if model.get("rate_path"):
@@ -153,6 +153,9 @@ def compare_step(w, rec, out, val, before):
             fails.append(("ended", "step after the end of the episode was not refused: %s" % out, ""))
         elif exp_out == "broke" and out == "ok":
             fails.append(("out", "step returned although the specification (pinned rule) raises", ""))
+        elif exp_out == "ok" and out == "error" and isinstance(rec.get("target"), dict) and "CH" in rec["target"]:
+            fails.append(("roll", "a decision targeting the chain could not be executed (%r): the specification trades the lead contract "
+                                  "at its prevailing quotes" % (val,), ""))
         else:
             fails.append(("out", "step outcome %s (%r), spec %s" % (out, val, exp_out), ""))
     # ---- a decision of an insolvent account executes nothing
